@@ -233,8 +233,9 @@ func c09attrib(p *Prog, r *Report) {
 	}
 }
 
-func c09anchor(p *Prog, r *Report) {
-	const rule = "C09.anchor"
+func c09anchor(p *Prog, r *Report) { anchorRule(p, r, "C09.anchor") }
+
+func anchorRule(p *Prog, r *Report, rule string) {
 	r.Rule(rule, 2, "setAnchorBlock only under len(block.Signatures) > GetPeerSet(block.RoundReceived()).TrustCount() (strict) and (AnchorBlock==nil || block.Index() > *AnchorBlock); AnchorBlock written only by setAnchorBlock and Reset")
 	fn := p.Func(HG, "Hashgraph", "SetAnchorBlock")
 	if fn == nil {
